@@ -142,13 +142,13 @@ def run(tier):
     execset = set(boundary + nests + heretags + extras)
     model_done = sorted(set(t["done"] for t in texts))
     model_cut = sorted(incomplete)
-    k_done, k_cut = (14000, 6000) if tier == "quick" else (len(model_done), len(model_cut))
+    k_done, k_cut = (14000, 6000) if tier == "quick" else (60000, 25000)
     execset.update(rnd.sample(model_done, min(k_done, len(model_done))))
     execset.update(rnd.sample(model_cut, min(k_cut, len(model_cut))))
     execlist = sorted(execset)
     n_exec = 0
     for front in ("c", "stdin"):
-        sub = execlist if front == "c" else rnd.sample(execlist, min(len(execlist), 4000 if tier == "quick" else 40000))
+        sub = execlist if front == "c" else rnd.sample(execlist, min(len(execlist), 4000 if tier == "quick" else 12000))
         for t, r in run_exec(sub, front):
             n_exec += 1
             bad = None
